@@ -1,12 +1,16 @@
 package main
 
+import "time"
+
 // shrinkSeq minimises a failing sequential case: cut the call sequence after
 // the last call the violation needs, then drop calls one at a time.
 func shrinkSeq(c *Case, o *Outcome, rule string) (*Case, *Outcome) {
 	best, bo := cloneCase(c), o
 	budget := 400
+	deadline := time.Now().Add(45 * time.Second) // big scenarios (tens of thousands of keys) cost a second per execution
 	try := func(cand *Case) bool {
-		if budget <= 0 {
+		if budget <= 0 || time.Now().After(deadline) {
+			budget = 0
 			return false
 		}
 		budget--
